@@ -197,7 +197,21 @@ pub fn gen_zone(r: &mut Rng, o: ZoneOpts) -> ZoneSpec {
         1 | 2 => 1,
         _ => 1 + r.usize(7),
     };
-    let pool_desigs: Vec<Vec<u8>> = (0..ntypes.min(12)).map(|i| desig(r, o.tag.map(|t| t + 37 * i as u32))).collect();
+    // normally a dozen names; with many types sometimes ~40 distinct ones, so that the string table
+    // grows past 256 octets (indices stay <= 255, the last names straddle the 256 boundary)
+    let npool = if ntypes > 36 && r.chance(1, 2) { 36 + r.usize(9) } else { 12 };
+    let pool_desigs: Vec<Vec<u8>> = (0..ntypes.min(npool)).map(|i| {
+        let mut d = desig(r, o.tag.map(|t| t + 37 * i as u32));
+        if npool > 12 {
+            // make them pairwise distinct and long
+            while d.len() < 6 {
+                d.push(b'A' + (i % 26) as u8);
+            }
+            d[0] = b'A' + (i % 26) as u8;
+            d[1] = b'a' + (i / 26) as u8;
+        }
+        d
+    }).collect();
     let mut types = Vec::new();
     let cluster = offset(r);
     for i in 0..ntypes {
@@ -397,6 +411,30 @@ pub fn gen_zone(r: &mut Rng, o: ZoneOpts) -> ZoneSpec {
         if !fixed && !(o.allow_invalid && r.chance(1, 4)) {
             // keep the file well-formed: drop the rule
             z.rule = None;
+        }
+    }
+    // near miss: a last transition type that differs from what the rule says in one small way
+    // (a violating file that must be refused)
+    if o.allow_invalid && z.rule.is_some() && !z.trans.is_empty() && r.chance(1, 12) {
+        let k = z.trans.last().unwrap().1 as usize;
+        if k < z.types.len() {
+            let t = &mut z.types[k];
+            match r.below(4) {
+                0 => {
+                    if let Some(c) = t.desig.iter_mut().find(|c| c.is_ascii_alphabetic()) {
+                        *c ^= 0x20; // same letters, different case
+                    }
+                }
+                1 => t.off = t.off.saturating_add(if r.chance(1, 2) { 1 } else { -1 }),
+                2 => t.dst = !t.dst,
+                _ => {
+                    if t.desig.len() > 3 {
+                        t.desig.pop();
+                    } else {
+                        t.desig.push(b'X');
+                    }
+                }
+            }
         }
     }
     if !z.representable() {
